@@ -20,7 +20,10 @@ import (
 )
 
 type chCase struct {
-	Carrier string // polling | websocket | webtransport | up-websocket | up-webtransport
+	// polling | websocket | webtransport | up-websocket | up-webtransport (conformant upgrade first) |
+	// eager-websocket | eager-webtransport: an eager client switches while its poll's response, carrying a Send with
+	// a callback, is still being written (the polling writer is held), another Send with a callback being buffered
+	Carrier string
 	Rev     int
 	Batches [][]string // per batch, per Send: plain | resend | linger | resendLinger | nocb
 	Hold    bool       // ws/wt: hold the writer goroutine at its first statement while the batch is buffered
@@ -32,7 +35,7 @@ func (c chCase) String() string {
 
 func genCH(rt *rapid.T) chCase {
 	c := chCase{Rev: 4}
-	c.Carrier = rapid.SampledFrom([]string{"polling", "websocket", "websocket", "webtransport", "up-websocket", "up-webtransport"}).Draw(rt, "carrier")
+	c.Carrier = rapid.SampledFrom([]string{"polling", "websocket", "websocket", "webtransport", "up-websocket", "up-webtransport", "eager-websocket", "eager-webtransport"}).Draw(rt, "carrier")
 	if !strings.Contains(c.Carrier, "webtransport") && rapid.IntRange(0, 3).Draw(rt, "rev3") == 0 {
 		c.Rev = 3
 	}
@@ -74,9 +77,16 @@ func runCH(c chCase) (fail string, stats map[string]bool) {
 	if c.Rev == 3 {
 		eio = "3"
 	}
-	car := strings.TrimPrefix(c.Carrier, "up-")
+	car := strings.TrimPrefix(strings.TrimPrefix(c.Carrier, "up-"), "eager-")
+	eager := strings.HasPrefix(c.Carrier, "eager-")
 	var s *c06Sess
-	if strings.HasPrefix(c.Carrier, "up-") {
+	if eager {
+		var why string
+		s, why = doHandshake(w, c06HS{Carrier: "polling", EIO: eio})
+		if s == nil {
+			return "harness: handshake: " + why, stats
+		}
+	} else if strings.HasPrefix(c.Carrier, "up-") {
 		var why string
 		s, why = doHandshake(w, c06HS{Carrier: "polling", EIO: eio})
 		if s == nil {
@@ -101,6 +111,7 @@ func runCH(c chCase) (fail string, stats map[string]bool) {
 		g = InstallGates(nil)
 		defer g.Uninstall()
 	}
+	var oldPC *PollClient
 	behaviour := map[int]string{} // tag -> what its callback does
 	seq := 0
 	var sentAll []Pkt
@@ -128,6 +139,48 @@ func runCH(c chCase) (fail string, stats map[string]bool) {
 			stats["send-from-lingering-callback"] = true
 			send("plain")
 			linger()
+		}
+	}
+	if eager {
+		pc := s.pc
+		oldPC = pc
+		if pc.Poll == nil {
+			pc.StartPoll()
+			Settle()
+		}
+		gpp := GatePoint{"polling.send.start", g.Count("polling.send.start")}
+		g.mu.Lock()
+		g.plan[gpp] = true
+		g.mu.Unlock()
+		send("plain") // handed to the pending poll; the polling writer is held before it writes the response
+		Settle()
+		held := false
+		for _, p := range g.Parked() {
+			if p == gpp {
+				held = true
+			}
+		}
+		send("plain") // buffered behind it
+		wc, tc, err := eagerUpgrade(w, pc, car)
+		if err != nil {
+			return "eager upgrade: " + err.Error(), stats
+		}
+		if held {
+			stats["switch-while-a-poll-response-with-a-callback-is-being-written"] = true
+		}
+		send("plain") // goes out on the new transport
+		Settle()
+		g.mu.Lock()
+		delete(g.plan, gpp)
+		g.mu.Unlock()
+		g.Release(gpp)
+		Settle()
+		pc.Pump()
+		s = &c06Sess{wc: wc, tc: tc, open: s.open}
+		cl = hbClient{s: s}
+		ev := map[string]bool{}
+		if f := eventStructure(w, sr, ev); f != "" {
+			return "eager upgrade: " + f, stats
 		}
 	}
 	for bi, batch := range c.Batches {
@@ -194,6 +247,14 @@ func runCH(c chCase) (fail string, stats map[string]bool) {
 	}
 	// everything sent has arrived, every callback has run exactly once
 	var got []Pkt
+	if oldPC != nil {
+		// what the eager client's last poll brought
+		for _, p := range oldPC.Recv {
+			if p.Type == tMessage {
+				got = append(got, p)
+			}
+		}
+	}
 	for _, p := range s.recv() {
 		if p.Type == tMessage {
 			got = append(got, p)
@@ -206,6 +267,11 @@ func runCH(c chCase) (fail string, stats map[string]bool) {
 		return fmt.Sprintf("client received %d of %d messages: %s", len(got), len(want), pktsString(got)), stats
 	}
 	for _, sm := range sr.Sent {
+		if eager {
+			// callbacks of batches that were in flight on the transport the eager client abandoned may be lost;
+			// the structure (at most once, after the flush, in order) is checked below
+			break
+		}
 		if sm.HasCb && len(sm.CbAt) != 1 {
 			return fmt.Sprintf("callback of Send #%d ran %d times although the session is open and the client has read everything", sm.Tag, len(sm.CbAt)), stats
 		}
@@ -241,5 +307,53 @@ func TestC18CallbackChains(t *testing.T) {
 			rt.Fatalf("%v: %s", c, clipStr(res.Leak, 1500))
 		}
 	})
-	col.RequireClasses(t, "ev.batch>=2", "send-from-lingering-callback", "batch-buffered-behind-held-writer", "carrier.polling", "carrier.websocket", "carrier.webtransport", "carrier.up-websocket")
+	col.RequireClasses(t, "ev.batch>=2", "send-from-lingering-callback", "batch-buffered-behind-held-writer", "carrier.polling", "carrier.websocket", "carrier.webtransport", "carrier.up-websocket", "carrier.eager-websocket", "carrier.eager-webtransport", "switch-while-a-poll-response-with-a-callback-is-being-written")
+}
+
+// eagerUpgrade: the candidate probes, gets its pong and sends the upgrade packet at once, without waiting for the
+// client's poll to come back (a client that does not pause its polling transport first).
+func eagerUpgrade(w *World, pc *PollClient, kind string) (*WSClient, *WTClient, error) {
+	sr := w.Get(pc.Sid)
+	var wc *WSClient
+	var tc *WTClient
+	if kind == "websocket" {
+		wc = &WSClient{W: w, O: ClientOpts{Rev: pc.O.Rev, EIO: pc.O.EIO, B64: pc.O.B64}, Sid: pc.Sid}
+		wc.Start()
+		Settle()
+		wc.Pump()
+		if wc.HTTPStatus != 101 {
+			return nil, nil, fmt.Errorf("candidate websocket not accepted: status %d", wc.HTTPStatus)
+		}
+		wc.SendPacket(ctlD(tPing, "probe"), nil)
+	} else {
+		tc = &WTClient{W: w, O: ClientOpts{Rev: 4}, Sid: pc.Sid}
+		tc.Start()
+		Settle()
+		tc.OpenBidi()
+		tc.SendHandshake()
+		Settle()
+		tc.SendPacket(ctlD(tPing, "probe"))
+	}
+	Settle()
+	var r []Pkt
+	if wc != nil {
+		wc.Pump()
+		r = wc.Recv
+	} else {
+		tc.Pump()
+		r = tc.Recv
+	}
+	if len(r) == 0 || r[len(r)-1].Type != tPong {
+		return wc, tc, fmt.Errorf("probe not answered with a probe pong: candidate received %v", r)
+	}
+	if wc != nil {
+		wc.SendPacket(ctl(tUpgrade), nil)
+	} else {
+		tc.SendPacket(ctl(tUpgrade))
+	}
+	Settle()
+	if got := sr.Sock.Transport().Name(); got != kind {
+		return wc, tc, fmt.Errorf("after the upgrade packet the session's transport is %q", got)
+	}
+	return wc, tc, nil
 }
